@@ -4,6 +4,7 @@ CONSTANTS MaxW = 3
           MinCells = 5
           MaxCells = 6
           AlphaName = "plain"
+          OpSet = "all"
           Prot = FALSE
           Quirks <- EngineQuirks
 INVARIANT ResultKinds
